@@ -400,7 +400,7 @@ class BodyPath:
 
 
 def explore_body(I, src, run_body, acc_names, poisoned, env, want_updates=(), tolerate_break_effects=False,
-                 pass_index=False):
+                 pass_index=False, check_escape=True):
     """Explore the loop body for a generic index j; returns (jvar, [BodyPath])."""
     parent = I.ctx
     sterm = source_term(I, src)
@@ -494,7 +494,7 @@ def explore_body(I, src, run_body, acc_names, poisoned, env, want_updates=(), to
     bound_names = set(c.decl().name() for c, _ in binds)
     # no child-local symbol may escape (it would be an unbound per-iteration existential)
     marker = ex.scope + "#"
-    for bp in results:
+    for bp in (results if check_escape else []):
         exprs = [bp.guard]
         for outs in bp.outs.values():
             for o in outs:
